@@ -172,16 +172,29 @@ class installed:
         return False
 
 
-def make_reactor(kind, kern, now):
+def make_reactor(kind, kern, now, fake_select_module=False):
     """A fresh, uninstalled reactor of the given kind whose poller is the fake
-    one and whose seconds() is `now()`."""
+    one and whose seconds() is `now()`.
+    fake_select_module (optional, select reactor only): also rebind the `select` module name inside selectreactor.py, which its
+    descriptor-probing pass after EBADF ("preening") calls select.select through - needed by scenarios that close a fake
+    descriptor behind the reactor's back (the real select rejects the fake kernel's fd numbers)."""
     if kind == "select":
         from twisted.internet import selectreactor
 
         old = selectreactor._select
         selectreactor._select = K.FakeSelect(kern)
         r = selectreactor.SelectReactor()
-        r._verif_restore = lambda: setattr(selectreactor, "_select", old)
+        if fake_select_module:
+            old_mod = selectreactor.select
+            selectreactor.select = K.SelectModuleProxy(kern)
+
+            def restore():
+                selectreactor._select = old
+                selectreactor.select = old_mod
+
+            r._verif_restore = restore
+        else:
+            r._verif_restore = lambda: setattr(selectreactor, "_select", old)
     elif kind == "poll":
         from twisted.internet import pollreactor
 
